@@ -268,6 +268,10 @@ def _subs(tier, prop):
             {'k': 'shutdown', 'dev': 'p1', 't': 't0'}, {'k': 'restore', 'dev': 'p1', 't': 't1'}]), mons, zero=['cs'], pre=['t0 <= t1']))
         S.append(mk_sub('F6-fail-restore-n2', _faults_basic(2, [
             {'k': 'fail', 'dev': 'p1', 't': 't0'}, {'k': 'restore', 'dev': 'p1', 't': 't1'}]), mons, zero=['cs'], pre=['t0 <= t1']))
+        S.append(mk_sub('F6-timer-and-pending-failure-paused-together', _faults_basic(1, [
+            {'k': 'fail', 'dev': 'p1', 't': 't1'}, {'k': 'shutdown', 'dev': 'p1', 't': 't0'}, {'k': 'restore', 'dev': 'p1', 't': 't2'},
+            {'k': 'restore', 'dev': 'p1', 't': 't3'}]), mons + ['cycle'], zero=['cs', 'c0'],
+            pre=['t0 < c1', 't0 < t1', 't0 < t2', 't2 < t3', 't1 + (t2 - t0) < t3']))
         S.append(mk_sub('F6-high-priority-shutdown-at-the-finish-instant', _faults_basic(1, [
             {'k': 'shutdown', 'dev': 'p1', 't': 't0', 'prio': 'high'}, {'k': 'restore', 'dev': 'p1', 't': 't1'}]), mons + ['cycle'], zero=['cs'],
             pre=['t0 == c0 + c1', 't0 < t1']))
@@ -340,6 +344,9 @@ def _subs(tier, prop):
         S.append(mk_sub('F5-pool-lowered-and-raised', with_ops(resources2(2), [
             {'k': 'addres', 'res': 'r', 'amount': -1, 't': 't0'}, {'k': 'addres', 'res': 'r', 'amount': 1, 't': 't1'}]), mons,
             zero=['cs', 'c0'], pre=['t0 <= t1']))
+        S.append(mk_sub('F5-capacity-dropped-below-two-holders', with_ops(resources2(3, cap=2), [
+            {'k': 'addres', 'res': 'r', 'amount': -2, 't': 't0'}, {'k': 'addres', 'res': 'r', 'amount': 2, 't': 't1'}]), mons,
+            zero=['cs', 'c0'], pre=['t0 < c1', 't0 < c2', 't0 < t1']))
         S.append(mk_sub('F5-fail-while-holding', with_ops(serial('P', 2, res={'r': 1}) | {'pools': {'r': 1}}, [
             {'k': 'fail', 'dev': 'p1', 't': 't0'}, {'k': 'restore', 'dev': 'p1', 't': 't1'}]), mons, zero=['cs'], pre=['t0 <= t1']))
         S.append(mk_sub('F5-maintenance-while-holding', with_ops(serial('P', 2, res={'r': 1}) | {'pools': {'r': 1}}, [
@@ -380,6 +387,7 @@ def _subs(tier, prop):
         sch = {'devices': [{'k': 'scheduler', 'name': 'sch', 'durs': ['d0', 'd1', 'd2'], 'states': ['off', 'on', 'off'], 'cyclical': True}],
                'horizons': ['H']}
         S.append(mk_sub('scheduler-off-on-off-cyclical', sch, mons, pre=['H < 2 * (d0 + d1 + d2)'], ranges={'H': (0, 6 * L.T)}))
+        S.append(mk_sub('F7-batch-backlog-in-buffer', batch_backlog_in_buffer(6, (2, 2, 2)), mons, zero=['cs', 'c0']))
         S.append(mk_sub('F5-pool-created-at-run-time', with_ops(resources2(1), [
             {'k': 'addres', 'res': 'q', 'amount': 'a0', 't': 't0'}]), mons, zero=['cs', 'c0'], ranges={'a0': (1, L.T)}))
         S.append(mk_sub('F5-capacity-change', with_ops(resources2(1), [
